@@ -301,6 +301,9 @@ def run(pm, ctx):
         # ---- e admissibility
         admissibility(ctx, unit, b, site)
 
+    # ------------------------------------------------------------------ g: incremental stocks along the scan
+    incremental_stocks(pm, ctx, unit, fb)
+
     # ------------------------------------------------------------------ f: application in Kauri.fit
     application(pm, ctx)
 
@@ -453,6 +456,166 @@ def admissibility(ctx, unit, b, site):
         ctx.ok("C08-e", site, f"guards {conj}")
 
 
+def incremental_stocks(pm, ctx, unit, fb):
+    """loop invariant of the threshold scan: after the update for the sample x = nu[l_split] the running stocks are those of
+    Sl = {nu[0..l_split]} and Sr = the rest.  By bilinearity  sigma((Sl+x)^2) - sigma(Sl^2) = 2 sigma(x,Sl) + sigma(x,x)  and
+    sigma((Sr-x)^2) - sigma(Sr^2) = -2 sigma(x,Sr-x) - sigma(x,x);  sigma(Sl+x, C) - sigma(Sl, C) = sigma(x, C)."""
+    ctx.rule("C08-g", "the stocks handed to the gain formulas must be those of the candidate split: initialised to (empty, whole leaf) "
+             "and moved by exactly the scanned sample's contributions, before any candidate is skipped", floor=8)
+    qn = "find_best_split"
+    scans = [n for n in ast.walk(fb) if isinstance(n, ast.For) and norm_src(n.target) == "l_split"]
+    if len(scans) != 1:
+        ctx.unrecognised("C08-g", f"{qn}: scan", "no single loop over l_split")
+        return
+    sc = scans[0]
+    x = "nu[l_split]"
+    # ---- alpha / beta: sigma(x, Sl_old) and sigma(x, Sr_old - x)
+    inner = [n for n in sc.body if isinstance(n, ast.For) and norm_src(n.target) == "l_prime"]
+    reset = [s_ for s_ in sc.body if isinstance(s_, ast.Assign) and "alpha" in norm_src(s_.targets[0]) and "beta" in norm_src(s_.targets[0])]
+    site = f"{qn}: alpha/beta accumulation"
+    if len(inner) != 1 or not reset:
+        ctx.unrecognised("C08-g", site, "no `alpha, beta = 0, 0` followed by a loop over l_prime")
+    else:
+        ip = inner[0]
+        probs = []
+        if norm_src(reset[0].value) not in ("(0, 0)", "(0.0, 0.0)") or sc.body.index(reset[0]) > sc.body.index(ip):
+            probs.append("alpha and beta are not reset to 0 for each scanned sample")
+        if norm_src(ip.iter) != "range(n_leaf)":
+            probs.append(f"the inner loop runs over {norm_src(ip.iter)}, not over all samples of the leaf")
+        arms = {}
+        for n in ast.walk(ip):
+            if isinstance(n, ast.AugAssign) and isinstance(n.target, ast.Name) and n.target.id in ("alpha", "beta"):
+                conds = [c for c in _enclosing_tests(n, ip)]
+                arms[n.target.id] = (n, conds)
+        want = {"alpha": ("<", "sigma(x, samples before x)"), "beta": (">", "sigma(x, samples after x)")}
+        for v, (op, what) in want.items():
+            if v not in arms:
+                probs.append(f"{v} is never accumulated")
+                continue
+            n, conds = arms[v]
+            if not (isinstance(n.op, ast.Add) and norm_src(n.value) in (f"kernel[{x}, nu[l_prime]]", f"kernel[nu[l_prime], {x}]")):
+                probs.append(f"{v} accumulates {norm_src(n.value)}, not kernel[x, nu[l_prime]]")
+            try:
+                d_, o_ = compare_normal(conds[-1][0]) if conds else (None, None)
+                ref = compare_normal(ast.parse(f"l_prime {op} l_split", mode="eval").body)
+                pol = conds[-1][1] if conds else True
+                if not (conds and pol and o_ == ref[1] and d_.equals(ref[0])):
+                    probs.append(f"{v} is not restricted to l_prime {op} l_split ({what})")
+            except NotScalarArithmetic:
+                probs.append(f"{v}: unrecognised guard")
+        if probs:
+            ctx.violation("C08-g", unit.relpath, qn, norm_src(ip)[:160], "; ".join(probs), line=ip.lineno, site=site)
+        else:
+            ctx.ok("C08-g", site, "alpha = sigma(x, Sl), beta = sigma(x, Sr - x)")
+    # ---- square stocks
+    table = {"alpha": P(xl=1), "beta": P(xr=1), f"kernel[{x}, {x}]": P(xx=1)}
+    for var, ref, what in (("sl_square", P(xl=2, xx=1), "sigma((Sl+x)^2) - sigma(Sl^2) = 2 sigma(x,Sl) + sigma(x,x)"),
+                           ("sr_square", Rat(Poly.const(0)) - P(xr=2, xx=1), "sigma((Sr-x)^2) - sigma(Sr^2) = -2 sigma(x,Sr-x) - sigma(x,x)")):
+        ups = [s_ for s_ in sc.body if isinstance(s_, ast.AugAssign) and norm_src(s_.target) == var]
+        site = f"{qn}: update of {var}"
+        if len(ups) != 1:
+            if not ups:
+                ctx.unrecognised("C08-g", site, f"no top-level update of {var} in the scan")
+            else:
+                ctx.violation("C08-g", unit.relpath, qn, norm_src(ups[1]), f"{var} is updated {len(ups)} times per scanned sample", line=ups[1].lineno, site=site)
+            continue
+        u_ = ups[0]
+        try:
+            val = to_rat(u_.value)
+            inc = val if isinstance(u_.op, ast.Add) else (Rat(Poly.const(0)) - val if isinstance(u_.op, ast.Sub) else None)
+            inc2, unknown = substitute_stocks(inc, table) if inc is not None else (None, ["?"])
+        except NotScalarArithmetic:
+            inc2, unknown = None, ["non-arithmetic"]
+        if inc2 is None or unknown:
+            ctx.violation("C08-g", unit.relpath, qn, norm_src(u_), f"the update of {var} reads {unknown}: not a kernel stock of the scanned sample", line=u_.lineno, site=site)
+        elif inc2.equals(ref):
+            ctx.ok("C08-g", site, what)
+        else:
+            ctx.violation("C08-g", unit.relpath, qn, norm_src(u_), f"the update of {var} is {norm_src(u_)}; bilinearity requires {what}", line=u_.lineno, site=site)
+    # ---- cluster stocks
+    cl = [n for n in sc.body if isinstance(n, ast.For) and norm_src(n.iter) == "range(n_clusters)"]
+    site = f"{qn}: update of sl_clusters / sr_clusters"
+    if len(cl) != 1:
+        ctx.unrecognised("C08-g", site, "no loop over the clusters in the scan")
+    else:
+        a = norm_src(cl[0].target)
+        ups = {norm_src(s_.target): s_ for s_ in cl[0].body if isinstance(s_, ast.AugAssign)}
+        l_, r_ = ups.get(f"sl_clusters[{a}]"), ups.get(f"sr_clusters[{a}]")
+        okc = l_ is not None and r_ is not None and isinstance(l_.op, ast.Add) and isinstance(r_.op, ast.Sub) \
+            and norm_src(l_.value) == norm_src(r_.value) == f"omega[{a}, {x}]"
+        if okc:
+            ctx.ok("C08-g", site, "sigma(x, C_a) moves from the right stock to the left stock for every cluster")
+        else:
+            bad = l_ or r_ or cl[0]
+            ctx.violation("C08-g", unit.relpath, qn, norm_src(bad)[:160], "the cluster stocks are not moved by omega[a, x] from the right part to the left part", line=bad.lineno, site=site)
+    # ---- the updates precede every `continue` (a skipped candidate must still move the stocks)
+    skips = [s_ for s_ in sc.body if isinstance(s_, ast.If) and any(isinstance(n, ast.Continue) for n in ast.walk(s_))]
+    upd_stmts = [s_ for s_ in sc.body if (isinstance(s_, ast.AugAssign) and norm_src(s_.target) in ("sl_square", "sr_square")) or (isinstance(s_, ast.For) and norm_src(s_.iter) == "range(n_clusters)")]
+    site = f"{qn}: stocks updated before candidates are skipped"
+    if not skips or not upd_stmts:
+        ctx.unrecognised("C08-g", site, "no skip tests / no updates at the top level of the scan")
+    elif max(sc.body.index(u_) for u_ in upd_stmts) < min(sc.body.index(k_) for k_ in skips):
+        ctx.ok("C08-g", site)
+    else:
+        k_ = min(skips, key=lambda k__: sc.body.index(k__))
+        ctx.violation("C08-g", unit.relpath, qn, norm_src(k_.test), "a candidate can be skipped (`continue`) before the running stocks were moved past its sample: every later "
+                      "candidate is then evaluated with the stocks of another split", line=k_.lineno, site=site)
+    # ---- initialisation before the scan: (empty, whole leaf)
+    parent = sc._parent
+    pre = parent.body[:parent.body.index(sc)] if sc in parent.body else []
+    init = {}
+    for s_ in pre:
+        if isinstance(s_, ast.Assign) and isinstance(s_.targets[0], ast.Name):
+            init[s_.targets[0].id] = s_
+    site = f"{qn}: initial stocks"
+    probs = []
+    for v, want in (("sl_square", ["0", "0.0"]), ("sl_clusters", ["np.zeros(n_clusters)"]), ("sr_clusters", ["np.zeros(n_clusters)"]), ("leaf_square", ["sr_square"])):
+        if v not in init:
+            probs.append(f"{v} is not (re)initialised for each leaf and feature")
+        elif norm_src(init[v].value) not in want:
+            probs.append(f"{v} starts as {norm_src(init[v].value)}")
+    acc = [n for n in pre if isinstance(n, ast.For)]
+    unrec = []
+    for tgt_pred, want_val, msg in ((lambda t: t == "sr_square", "Lambda[j, leaf_indices[a]]", "sr_square is not initialised to the stock of the whole leaf (sum of Lambda[j, leaf samples])"),
+                                     (lambda t: t.startswith("sr_clusters["), "omega[b, leaf_indices[a]]", "sr_clusters is not initialised to sigma(leaf, C_b)")):
+        ups = [s_ for n in acc for s_ in ast.walk(n) if isinstance(s_, ast.AugAssign) and tgt_pred(norm_src(s_.target))]
+        if not ups:
+            unrec.append(msg)
+        elif not (isinstance(ups[0].op, ast.Add) and canon_equal(ups[0].value, want_val)) or not norm_src(n := next(x for x in acc if any(y is ups[0] for y in ast.walk(x)))).count("range(n_leaf)"):
+            probs.append(msg + f" (found `{norm_src(ups[0])}`)")
+    if (not init and not acc) or (unrec and not probs):
+        ctx.unrecognised("C08-g", site, "; ".join(unrec) or "no initialisation block before the scan")
+    elif probs:
+        ctx.violation("C08-g", unit.relpath, qn, "initialisation of the running stocks", "; ".join(probs), line=sc.lineno, site=site)
+    else:
+        ctx.ok("C08-g", site, "Sl empty, Sr = the whole leaf; leaf_square = sigma(N^2)")
+    # Lambda / omega / gamma definitions
+    for tgt, val, why in (("Lambda", "np.matmul(Z[:n_leaves], kernel)", "Lambda[l, s] must be the stock between leaf l and sample s"),
+                          ("omega", "np.matmul(Y[:n_clusters, :n_leaves], Lambda)", "omega[k, s] must be the stock between cluster k and sample s"),
+                          ("gamma", "np.matmul(np.matmul(omega, np.transpose(Z[:n_leaves])), np.transpose(Y[:n_clusters, :n_leaves]))", "gamma[k, k'] must be the stock between clusters"),
+                          ("cluster_sizes", "np.dot(Y, np.sum(Z, axis=1))", "cluster_sizes[k] must be the number of samples of cluster k")):
+        expect_assign(ctx, "C08-g", unit, qn, fb, tgt, [val], f"{qn}: {tgt}", why)
+
+
+def _enclosing_tests(node, stop):
+    """[(test, polarity)] of the If statements between node and stop; an `elif` arm also carries the negation of the earlier tests"""
+    out = []
+    child = node
+    p = getattr(node, "_parent", None)
+    while p is not None and p is not stop:
+        if isinstance(p, ast.If):
+            if any(child is s_ for s_ in p.body):
+                out.append((p.test, True))
+            elif any(child is s_ for s_ in p.orelse):
+                out.append((p.test, False))
+        child = p
+        p = getattr(p, "_parent", None)
+    # innermost positive test last
+    out.reverse()
+    pos = [c for c in out if c[1]]
+    return pos if pos else out
+
+
 def index_spaces(pm, ctx, unit, fb):
     I = Interp(pm)
     I.force_seeds = True
@@ -592,6 +755,21 @@ def controls(pm, tier):
     mut("if left_star > best_split.gain or right_star > best_split.gain:\n            if left_star > right_star:",
         "if left_star > best_split.gain or right_star > best_split.gain:\n            if left_star < right_star:", "C08-d", "star keeps the smaller of the two candidates")
     mut("corrective_term += gamma[k, k] / cluster_sizes[k]", "corrective_term -= gamma[k, k] / cluster_sizes[k]", "C08-b", "corrective term sign")
+
+    mut("                sl_square += 2 * alpha + kernel[nu[l_split], nu[l_split]]", "                sl_square += alpha + kernel[nu[l_split], nu[l_split]]", "C08-g", "left stock misses half of the cross term")
+    mut("                    elif l_prime > l_split:", "                    elif l_prime >= l_split:", "C08-g", "beta includes the diagonal term")
+    mut("                    sr_clusters[a] -= omega[a, nu[l_split]]", "                    sr_clusters[a] -= omega[a, nu[l_split + 1]]", "C08-g", "right cluster stock moved by the next sample")
+
+    def skip_first(pm_):
+        u = pm_.unit(PYX)
+        a = "                if l_split < (min_leaf - 1) or l_split > n_leaf - min_leaf - 1:\n                    # We must guarantee a certain number of samples remaining in the leaves\n                    continue\n"
+        b = "                sl_square += 2 * alpha + kernel[nu[l_split], nu[l_split]]\n"
+        if a not in u.src or b not in u.src:
+            return None
+        s2 = u.src.replace(a, "")
+        s2 = s2.replace(b, a + b)
+        return {u.relpath: s2}
+    out.append({"name": "min-leaf skip moved above the stock updates", "rule": "C08-g", "apply": skip_first})
 
     def app_mut(pm_):
         u = pm_.unit("gemclus.tree.kauri")
